@@ -562,8 +562,9 @@ def expand_helpers(model, cls_name, stmts, depth=2, skip=lambda name: False):
             for k in c.keywords:
                 if k.arg in params:
                     mapping[k.arg] = k.value
-            sub = _Subst(mapping, {})
-            body = [sub.visit(copy.deepcopy(s)) for s in target.body if not (isinstance(s, ast.Expr) and isinstance(s.value, ast.Constant))]
+            from .model import fresh
+            sub = _Subst({k: fresh(v) for k, v in mapping.items()}, {})
+            body = [sub.visit(fresh(s)) for s in target.body if not (isinstance(s, ast.Expr) and isinstance(s.value, ast.Constant))]
             for s in body:
                 ast.fix_missing_locations(s)
             out.extend(body)
